@@ -126,6 +126,14 @@ def gen_case(prop, tier, seed, stream, k):
                         group[i].name = bad
                         group[j].name = str(i)
                         repaired = True
+    if stream in ("repair", "plain") and rnd.random() < 0.08 and m.rows:
+        # all-zero objective (the objective still has a name, and a row may be called obj)
+        for c in m.cols:
+            c.obj = F(0)
+            if not any(c in r.coef for r in m.rows):
+                rnd.choice(m.rows).coef[c] = F(rnd.choice([1, -2, 3]))
+        if rnd.random() < 0.6 and "obj" not in [x.name for x in m.cols + m.rows]:
+            rnd.choice(m.rows).name = "obj"
     fmt = "LP" if prop == "C08" else "MPS"
     files = {}
     if stream == "fromfile":
